@@ -28,6 +28,12 @@ def realise(d):
     x = _realise(d)
     if d.get("zero_imag") and np.iscomplexobj(x):
         x = x.real.astype(complex)      # real-valued samples declared complex
+    L = d.get("zero_stuff")
+    if L:
+        # output of an up-sampler: every sample whose index is not a multiple of L is exactly zero
+        # (lag products that cancel *exactly*: reflection coefficients equal to 0.0 at inner stages)
+        x = x.copy()
+        x[np.arange(len(x)) % L != 0] = 0
     return x if g == 1.0 else x * g
 
 
